@@ -31,7 +31,8 @@ def obs_space(kind, dim):
     if kind == "discrete":
         return Discrete(dim + 1)
     if kind == "dict":
-        return Dict(OrderedDict(a=Box(-jnp.ones(dim), jnp.ones(dim)), b=Discrete(3)))
+        # keys deliberately not in sorted order: the declared (insertion) order is what flatten_sample follows
+        return Dict(OrderedDict(vel=Box(-jnp.ones(dim), jnp.ones(dim)), pos=Box(-2 * jnp.ones(2), jnp.ones(2)), contact=Discrete(3)))
     return Tuple((Discrete(4), Box(-jnp.ones((dim, 2)), jnp.ones((dim, 2)))))
 
 
@@ -89,7 +90,8 @@ def outputs(spec, policy, obs, key):
 def oracle_roundtrip(ctx: Ctx, case):
     spec = case["spec"]
     cls, env, kw, fresh = build(spec, case["key"])
-    policy = perturb(fresh, case["key"] + 1)
+    # either the object exactly as its constructor returned it, or one rebuilt by a pytree operation with moved parameters
+    policy = perturb(fresh, case["key"] + 1) if case.get("perturb", True) else fresh
     tmp = tempfile.mkdtemp(prefix="lerax_c18_")
     tags = {"cls": spec["cls"]}
     try:
@@ -134,7 +136,8 @@ def oracle_roundtrip(ctx: Ctx, case):
             o1, o2 = outputs(spec, policy, obs, jr.key(5 + j)), outputs(spec, loaded, obs, jr.key(5 + j))
             for u, v in zip(o1, o2):
                 ctx.check(u.shape == v.shape and np.array_equal(u, v, equal_nan=True), "C18/outputs-differ-after-round-trip", tags=tags, saved=u, loaded=v)
-        ctx.count(nontrivial=differs_from_skeleton >= sum(1 for x in a if "float" in str(x.dtype) and x.size) - 1, classes=[spec["cls"], spec["obs_kind"], spec["act_kind"], "nested_dir" if "/" in rel else "flat", "suffix" if rel.endswith(".eqx") else "no_suffix", f"prior={prior}"], key=[spec, rel, prior])
+        need = sum(1 for x in a if "float" in str(x.dtype) and x.size and (case.get("perturb", True) or x.ndim >= 2)) - 1  # fresh biases are zero in both
+        ctx.count(nontrivial=differs_from_skeleton >= need, classes=["as_constructed"] * (not case.get("perturb", True)) + [spec["cls"], spec["obs_kind"], spec["act_kind"], "nested_dir" if "/" in rel else "flat", "suffix" if rel.endswith(".eqx") else "no_suffix", f"prior={prior}"], key=[spec, rel, prior])
     finally:
         shutil.rmtree(tmp, ignore_errors=True)
 
@@ -197,7 +200,7 @@ def specs(draw):
 def roundtrip_cases(draw):
     name = draw(st.sampled_from(["x.eqx", "x", "policy", "a/b/c/x", "a/b/c/x.eqx", "run 1/model", "x.v2", "ckpt.tar.gz"]))
     prior = draw(st.sampled_from([None, None, "same_arch", "other_arch"]))
-    case = {"spec": draw(specs()), "path": name, "key": draw(st.integers(0, 2**31 - 200)), "prior": prior}
+    case = {"spec": draw(specs()), "path": name, "key": draw(st.integers(0, 2**31 - 200)), "prior": prior, "perturb": draw(st.booleans())}
     if prior == "other_arch":
         case["prior_spec"] = draw(specs())
     return case
